@@ -1,12 +1,15 @@
 from vdriver import Group
 META = {'level': 'other'}
 def groups(tier):
-    n = 4 if tier == 'quick' else 6
+    n = 5 if tier == 'quick' else 7
     K = dict(unit='json_string', harness='C38/strings.c', entry='h_string', kind='bounded', backend=['sat', 'cadical'], timeout=900,
              checks=['--bounds-check', '--pointer-check'], replay='string')
-    return [Group('string.decode', unwind=n + 3, defines=['CXX_FIXED_STORAGE', f'CXX_VEC_CAP={4 * n + 8}', f'N={n}'],
+    return [Group('string.decode', unwind=n + 3, unwind_by={'JsonParser__parse_string#0': n + 1}, defines=['CXX_FIXED_STORAGE', f'CXX_VEC_CAP={4 * n + 8}', f'N={n}'],
                   bound=f'inputs of at most {n} bytes, every byte value in every position',
                   clause='parse_string: every well-formed JSON string is accepted and decoded to exactly its RFC 8259 value; only runtime_error escapes', **K),
+            Group('string.char_then_escape', unwind=9, unwind_by={'JsonParser__parse_string#0': 4}, defines=['CXX_FIXED_STORAGE', 'CXX_VEC_CAP=32', 'N=5', 'MIXED'],
+                  bound='inputs of the shape "c\\e": every ordinary byte c, every escape letter e other than u',
+                  clause='an ordinary character followed by an escape decodes to the character followed by the escaped character (or the escape is refused)', **K),
             Group('string.single_escape', unwind=12, defines=['CXX_FIXED_STORAGE', 'CXX_VEC_CAP=40', 'N=8', 'SINGLE'],
                   bound='inputs of the shape "\\uHHHH" with all 2^16 combinations of hex digits (upper and lower case)',
                   clause='one \\u escape of a non-surrogate code point decodes to its 1-3 byte UTF-8 encoding', **K),
@@ -27,7 +30,7 @@ def replay(group, trace):
         return None, 'counterexample has no input text'
     n = R.num(a['in_len'])
     text = bytearray((R.num(a.get(f'in_text[{k}]', 0)) & 0xFF) for k in range(n))
-    shape = {'PAIR': {0: '"', 1: '\\', 2: 'u', 7: '\\', 8: 'u', 13: '"'}, 'SINGLE': {0: '"', 1: '\\', 2: 'u', 7: '"'}}
+    shape = {'MIXED': {0: '"', 2: '\\', 4: '"'}, 'PAIR': {0: '"', 1: '\\', 2: 'u', 7: '\\', 8: 'u', 13: '"'}, 'SINGLE': {0: '"', 1: '\\', 2: 'u', 7: '"'}}
     for d, fixed in shape.items():       # positions the harness fixes after declaring the array
         if d in group.defines:
             for k, c in fixed.items():
@@ -37,10 +40,10 @@ def replay(group, trace):
     if not all(b < 0x80 for b in text):
         return None, f'input {text!r} is not ASCII: no reference value computed'
     try:
-        json.loads(text.decode('ascii'))
+        json.loads(text.decode('ascii'), strict=False)
     except Exception:
         return None, f'input {text!r} is not a JSON document for the json module'
-    want = json.loads(text.decode('ascii'))
+    want = json.loads(text.decode('ascii'), strict=False)
     try:
         want_utf8 = want.encode('utf-8')
     except UnicodeEncodeError:
